@@ -59,6 +59,8 @@ def _reader_and_skip_cases(rng, tier):
         c = c06.build(m2)
         if c is not None:
             yield Case(c.lines, {"iter": "read", "d": hx(data)})
+    for c in c06.reader_byte_sweeps(random.Random(rng.randrange(1 << 30)), tier):
+        yield Case(c.lines, {"iter": "read-sweep", "d": "00000000"})
     for c in D.readlim_cases(random.Random(rng.randrange(1 << 30)), 600 if tier == "quick" else 20000):
         yield Case(c.lines, {"iter": "readlim", "d": c.lines[0].split("\t")[-1]})
     r2 = random.Random(rng.randrange(1 << 30))
